@@ -547,7 +547,10 @@ class AttackGraph():
                 match (attack_step_attribs['type']):
                     case 'defense':
                         # Set the defense status for defenses
-                        defense_status = getattr(asset, attack_step_name)
+                        # Store a plain float, like a graph loaded from a
+                        # file does, not the model's own value object
+                        defense_status = float(
+                            getattr(asset, attack_step_name))
                         logger.debug(
                             'Setting the defense status of %s to %s.',
                             node_name, defense_status
